@@ -207,8 +207,9 @@ def isRoot (x : Nat) : List Forest → Bool
   | .cons n _ _ :: ts => n.id == x || isRoot x ts
 
 inductive Edit where
-  /-- `table.rename_symbol(s, n)` -/
-  | rename (s : Nat) (n : Nat)
+  /-- `p.symbol_table.rename_symbol(s, n)`: the symbol object gets the new name and is re-inserted
+  at the end of the table of `p` -/
+  | rename (p : Nat) (s : Nat) (n : Nat)
   /-- `s.datatype = …` / `s.initial_value = …`: the symbols used become `ds` -/
   | setDeps (s : Nat) (ds : List Nat)
   /-- `p.symbol_table.new_symbol(n, …)` with datatype dependencies `ds` -/
@@ -227,7 +228,10 @@ inductive Edit where
 def mapTrees (W : World) (f : Forest → Forest) : World := { W with trees := W.trees.map f }
 
 def apply (W : World) : Edit → World
-  | .rename s n => { W with name := fun x => if x = s then n else W.name x }
+  | .rename p s n =>
+    { W with name := fun x => if x = s then n else W.name x
+             trees := W.trees.map (Forest.map (updNode p fun m =>
+               { m with table := m.table.map (fun l => if l.contains s then l.erase s ++ [s] else l) })) }
   | .setDeps s ds => { W with deps := fun x => if x = s then ds else W.deps x }
   | .addSym p n ds =>
     { name := fun x => if x = W.nsym then n else W.name x
@@ -254,7 +258,7 @@ def run (W : World) (es : List Edit) : World := es.foldl apply W
 
 /-- the node identities an edit addresses -/
 def Edit.nodes : Edit → List Nat
-  | .rename _ _ => []
+  | .rename p _ _ => [p]
   | .setDeps _ _ => []
   | .addSym p _ _ => [p]
   | .removeSym p _ => [p]
@@ -265,7 +269,7 @@ def Edit.nodes : Edit → List Nat
 
 /-- the existing symbols whose name or datatype an edit changes -/
 def Edit.symbols : Edit → List Nat
-  | .rename s _ => [s]
+  | .rename _ s _ => [s]
   | .setDeps s _ => [s]
   | _ => []
 
